@@ -175,16 +175,26 @@ def check_models(ctx, fam, desc, F, true_sets, key, keep=None, nontrivial=True, 
 def check_sampled(ctx, fam, desc, F, good, bad, key):
     """Beyond the cap: witness objects must satisfy, one-condition-broken near misses must falsify."""
     ok = True
+    values = None
+    if len(F) > 2000:
+        # a large formula: all assignments in one pass over the clauses (one bit per assignment)
+        from .refmodels.names import eval_many
+        pool = [set(t) for t in good] + [set(t) for t, _ in bad]
+        for lo in range(0, len(pool), 64):
+            values = (values or []) + eval_many(F, pool[lo:lo + 64])
+    vals = iter(values) if values is not None else None
     for t in good:
         ctx.count("sampled_witnesses")
-        if not eval_formula(F, t):
+        if not (next(vals) if vals is not None else eval_formula(F, t)):
             ctx.violation("%s:sampled:object-not-a-model" % fam, "%s: a reference object falsifies the formula: %s"
                           % (desc, sorted(name_of(F, v) for v in t)[:40]))
             ok = False
             break
+    if values is not None:
+        vals = iter(values[len(good):])
     for t, why in bad:
         ctx.count("sampled_near_misses")
-        if eval_formula(F, t):
+        if (next(vals) if vals is not None else eval_formula(F, t)):
             ctx.violation("%s:sampled:satisfied-by-non-object" % fam,
                           "%s: a non-object (%s) satisfies the formula: %s"
                           % (desc, why, sorted(name_of(F, v) for v in t)[:40]))
